@@ -42,6 +42,14 @@ CLAIMED.update({
             "TLA+ model checking (TLC) of Env.tla + spec->impl behaviour replay + impl->spec trace validation with pointer identities"),
 })
 
+CLAIMED.update({
+    "C19": ("3.C19", "MC_BddSet: the concrete BDDSet machine (characteristic functions on Bdd.tla) refines the abstract set machine for every reachable "
+            "pair of 2-bit (thorough: 3-bit) sets x every operation incl. self-aliasing, queries are pure; every transition of the abstract "
+            "state graph (8192) is replayed on real BDDSets sharing an environment and observed only through contains() asked twice; random "
+            "60-operation histories over 3 bits are validated by Trace_BddSet.",
+            "TLA+ model checking (TLC) refinement check + spec->impl transition replay + impl->spec trace validation"),
+})
+
 PENDING_REASON = "machinery for this property is not built yet in this revision (planned in DESIGN.md section 3); no claim is made"
 
 ALL = ["C%02d" % i for i in range(1, 21)]
